@@ -12,8 +12,7 @@ Inductive val :=
 | VFloat (f : f64)
 | VBool (b : bool)
 | VStr (s : str)
-| VNil                  (* Optional(None) *)
-| VSome (v : val)       (* Optional(Some v) *)
+| VNil                  (* Optional(None); a present optional is the bare value at run time *)
 | VVec (l : list val).
 
 (* what a Rust arm does: a value, an anyhow error (exit 1), a panic (exit 101);
@@ -35,13 +34,13 @@ Definition isize_max : Z := 9223372036854775807%Z.
 (* kinds as printed by the typed-print hook / declared by the compiler *)
 Inductive ty := TInt | TBig | TByte | TFloat | TBool | TStr | TOpt (t : ty) | TList (t : ty) | TPair (a b : ty).
 
-Fixpoint has_ty (v : val) (t : ty) {struct v} : bool :=
-  match v, t with
-  | VInt _, TInt | VBig _, TBig | VByte _, TByte | VFloat _, TFloat | VBool _, TBool | VStr _, TStr => true
-  | VNil, TOpt _ => true
-  | VSome v, TOpt t => has_ty v t
-  | VVec l, TList t => forallb (fun v => has_ty v t) l
-  | VVec [x; y], TPair a b => has_ty x a && has_ty y b
+Fixpoint has_ty (v : val) (t : ty) {struct t} : bool :=
+  match t, v with
+  | TInt, VInt _ | TBig, VBig _ | TByte, VByte _ | TFloat, VFloat _ | TBool, VBool _ | TStr, VStr _ => true
+  | TOpt _, VNil => true
+  | TOpt t', _ => has_ty v t'          (* a present optional is the bare value *)
+  | TList t', VVec l => forallb (fun x => has_ty x t') l
+  | TPair a b, VVec [x; y] => has_ty x a && has_ty y b
   | _, _ => false
   end.
 
@@ -49,7 +48,6 @@ Fixpoint has_ty (v : val) (t : ty) {struct v} : bool :=
 Fixpoint wf_val (v : val) : bool :=
   match v with
   | VInt z => in_i32 z | VBig z => in_i128 z | VByte z => in_u8 z
-  | VSome v => wf_val v
   | VVec l => forallb wf_val l
   | _ => true
   end.
